@@ -24,14 +24,17 @@ package c24
 import (
 	"bytes"
 	"context"
+	"encoding/json"
 	"errors"
 	"fmt"
 	"os"
+	"path/filepath"
 	"runtime"
 	"sort"
 	"strings"
 	"sync"
 	"sync/atomic"
+	"syscall"
 	"testing"
 	"time"
 
@@ -62,12 +65,41 @@ func (nullLogger) Dropped(i int) uint64                              { return 0 
 func TestMain(m *testing.M) {
 	log.SetGlobalLogger(nullLogger{})
 	rc := m.Run()
-	if rc == 0 {
-		rc = classifyRaceLogs()
-	} else {
-		classifyRaceLogs()
+	raceRC := classifyRaceLogs()
+	if os.Getenv("VERIF_RACE") != "" && os.Getenv("GORACE") != "" {
+		// Under -race the testing package fails every test during which the detector reported
+		// anything, also the reports classified above as known findings. The verdict of this
+		// process is therefore: a property violation recorded by a sub-check, or a race report
+		// in the pool code that is not a known finding.
+		rc = raceRC
+		files, _ := filepath.Glob(filepath.Join(os.Getenv("VERIF_OUT"), "C24.*."+shardSuffix()+".json"))
+		if len(files) == 0 {
+			rc = 1 // no sub-check wrote its evidence: something else went wrong
+		}
+		for _, f := range files {
+			b, err := os.ReadFile(f)
+			var ev struct {
+				Violations int `json:"violations"`
+			}
+			if err != nil || json.Unmarshal(b, &ev) != nil || ev.Violations > 0 {
+				rc = 1
+			}
+		}
+		// os.Exit(0) would let the race runtime replace the status with its own (66) because it
+		// has reported something; all output is already written
+		os.Stdout.Sync()
+		syscall.Exit(rc)
+	} else if rc == 0 {
+		rc = raceRC
 	}
 	os.Exit(rc)
+}
+
+func shardSuffix() string {
+	if v := os.Getenv("VERIF_SHARD"); v != "" {
+		return v
+	}
+	return "0"
 }
 
 // ---- case ----
